@@ -139,6 +139,43 @@ def child(name, way, relocated_dir=None):
             p.returncode, p.stderr.decode(errors='replace')[-400:]))
 
 
+def identity(name):
+    """(centre, sorted multiset of peripherals) of a group name - own parser."""
+    import re
+    parts = re.split(r'[()]', str(name))
+    centre, per, last = parts[0], [], None
+    for p in parts[1:]:
+        if not p:
+            continue
+        if p.isdigit() and last is not None:
+            per.extend([last] * (int(p) - 1))
+            last = None
+        else:
+            per.append(p)
+            last = p
+    return (centre, tuple(sorted(per)))
+
+
+def raw_expectation(path, seen=None):
+    """Union of group / descriptor names, and the UQ block, declared by a
+    library file and everything it includes (PyYAML, no pgradd)."""
+    import yaml
+    seen = seen if seen is not None else set()
+    if path in seen:
+        return set(), None
+    seen.add(path)
+    d = yaml.safe_load(open(path)) or {}
+    groups = set(identity(g) for g in (d.get('groups') or {}))
+    groups |= set((str(g), ()) if '(' not in str(g) else identity(g)
+                  for g in (d.get('other_descriptors') or {}))
+    uq = d.get('UQ') or None
+    for inc in d.get('include') or []:
+        g2, u2 = raw_expectation(os.path.join(os.path.dirname(path), inc), seen)
+        groups |= g2
+        uq = uq or u2
+    return groups, uq
+
+
 def run_library(R, name):
     import yaml
     tmp = tempfile.mkdtemp(prefix='pgv_c14_')
@@ -199,6 +236,43 @@ def run_library(R, name):
         R.sample(dict(library=name, groups=len(d['groups']), evaluations=len(d['evals']),
                       patterns=d['n_patterns'], remaps=len(d['remaps']),
                       uq=bool(d.get('uq'))), limit=1)
+        # independent expectation from the raw files: which groups and which
+        # uncertainty block the library.yaml and everything it includes declare
+        want_groups, want_uq = raw_expectation(os.path.join(libs.data_dir(), name,
+                                                            'library.yaml'))
+        have = set(identity(g) for g in d['groups'])
+        R.evals += len(want_groups) + 1
+        R.nontrivial += len(want_groups) + 1
+        if have != want_groups:
+            R.violation('groups-differ-from-files',
+                        '%s: loaded library lacks %s / has extra %s compared with '
+                        'the group names written in its files' % (
+                            name, sorted(want_groups - have)[:4], sorted(have - want_groups)[:4]),
+                        dict(kind='lib', lib=name, way=ok[0]))
+        else:
+            R.outcomes['groups-as-declared'] += 1
+        if want_uq is not None:
+            got = d.get('uq')
+            bad = None
+            if not got:
+                bad = 'the files declare an uncertainty block but the loaded library has none'
+            elif [str(x) for x in want_uq['InvCovMat']['groups']] != got['descriptors']:
+                bad = 'uncertainty basis differs from the file'
+            elif got['mat'] is None or any(
+                    abs(float(a) - float(b)) > 1e-12 for ra, rb in
+                    zip(want_uq['InvCovMat']['mat'], got['mat']) for a, b in zip(ra, rb)):
+                bad = 'uncertainty matrix differs from the file'
+            elif got['dof'] != want_uq['DOF']:
+                bad = 'degrees of freedom differ from the file'
+            if bad:
+                R.violation('uq-differs-from-files', '%s: %s' % (name, bad),
+                            dict(kind='lib', lib=name, way=ok[0]))
+            else:
+                R.outcomes['uq-as-declared'] += 1
+        elif d.get('uq'):
+            R.violation('uq-not-in-files', '%s: loaded library has an uncertainty '
+                        'block that no file declares' % name,
+                        dict(kind='lib', lib=name, way=ok[0]))
         # scheme fragments (read again by the independent reader)
         sd = yaml.safe_load(open(os.path.join(libs.data_dir(), name, 'scheme.yaml')))
         for sec in ('patterns', 'other_descriptors'):
